@@ -295,6 +295,40 @@ _add(Op("is_lightlike", "method", (4,), None, ("tolerance",), "bool",
         lambda v, w, s: v.is_lightlike(s["tolerance"]), tags=("causal_pred",)))
 
 
+# conversions / embeddings as operations on a single vector (structure- and type-level checks: C18, C16); their values
+# are C04's subject, so they carry no reference definition and are not part of OPS
+EXTRA_OPS: dict = {}
+
+
+def _extra(op: Op):
+    assert op.name not in OPS and op.name not in EXTRA_OPS, op.name
+    EXTRA_OPS[op.name] = op
+
+
+for _n, _dims, _out, _call in (
+    ("to_Vector2D", (2, 3, 4), 2, lambda v, w, s: v.to_Vector2D()),
+    ("to_Vector3D", (2, 3, 4), 3, lambda v, w, s: v.to_Vector3D()),
+    ("to_Vector4D", (2, 3, 4), 4, lambda v, w, s: v.to_Vector4D()),
+    ("to_Vector3D(theta=)", (2,), 3, lambda v, w, s: v.to_Vector3D(theta=0.75)),
+    ("to_Vector4D(t=)", (2, 3), 4, lambda v, w, s: v.to_Vector4D(t=7.0)),
+    ("to_Vector4D(eta=,mass=)", (2,), 4, lambda v, w, s: v.to_Vector4D(eta=-0.5, mass=2.0)),
+    ("to_xy", (2, 3, 4), 2, lambda v, w, s: v.to_xy()),
+    ("to_rhophi", (2, 3, 4), 2, lambda v, w, s: v.to_rhophi()),
+    ("to_xyz", (2, 3, 4), 3, lambda v, w, s: v.to_xyz()),
+    ("to_rhophieta", (2, 3, 4), 3, lambda v, w, s: v.to_rhophieta()),
+    ("to_xyzt", (2, 3, 4), 4, lambda v, w, s: v.to_xyzt()),
+    ("to_xyzt(t=)", (2, 3), 4, lambda v, w, s: v.to_xyzt(t=7.0)),
+    ("to_rhophietatau", (2, 3, 4), 4, lambda v, w, s: v.to_rhophietatau()),
+    ("to_rhophietatau(tau=)", (2, 3), 4, lambda v, w, s: v.to_rhophietatau(tau=2.0)),
+    ("to_ptphietamass", (2, 3, 4), 4, lambda v, w, s: v.to_ptphietamass()),
+):
+    _extra(Op(_n, "method", _dims, None, (), "vec", None, _true, _call, out_dim=(lambda da, db, _o=_out: _o), tags=("conversion",)))
+
+
+def get(name):
+    return OPS[name] if name in OPS else EXTRA_OPS[name]
+
+
 def margin(op: Op, a, b, s):
     """Distance of a boolean decision from its threshold (None: not applicable)."""
     n = op.name
